@@ -14,7 +14,7 @@ import sys
 import time
 from collections import Counter, defaultdict
 
-V = "/verif"
+V = os.environ.get("VERIF_ROOT", os.path.dirname(os.path.dirname(os.path.abspath(__file__))))
 B = os.environ.get("VERIF_BUILD", V + "/build")
 OUT = os.environ.get("VERIF_OUT", V)
 RUNNER = B + "/harness/runner"
